@@ -44,7 +44,10 @@ Kinds == {"schemas", "parameters", "headers", "requestBodies", "responses", "sec
 
 (* child sites of an object of each kind: [site, kind of the target] *)
 Sites(k) ==
-   CASE k = "schemas" -> {[site |-> s, kind |-> "schemas"] : s \in {"properties", "items", "allOf", "anyOf", "oneOf", "not", "additionalProperties"}}
+   \* ("discriminator.mapping": the value of a mapping entry names a schema like a reference does, but it is a plain string -- the
+   \* loader does not resolve it, and above all must not READ the document it names while external references are disallowed)
+   CASE k = "schemas" -> {[site |-> s, kind |-> "schemas"] : s \in {"properties", "items", "allOf", "anyOf", "oneOf", "not", "additionalProperties",
+                                                                       "discriminator.mapping"}}
      [] k = "parameters" -> {[site |-> "schema", kind |-> "schemas"], [site |-> "content.schema", kind |-> "schemas"],
                              [site |-> "examples", kind |-> "examples"]}
      [] k = "headers" -> {[site |-> "schema", kind |-> "schemas"], [site |-> "examples", kind |-> "examples"]}
